@@ -30,7 +30,7 @@ RULE = ("layer 1/2: every rooted tree of order <= 8 (200 trees, exhaustive) x {a
         "as constant state components; polynomial Hamiltonians) x integrator x grid; non-trivial = non-linear or non-autonomous instance whose "
         "coarsest-resolution error is above the rounding floor; distinct by (tree, entry point) resp. full instance")
 ASSUMPTIONS = [
-    "fixed-step order: the better of the two finest pairwise log2 error ratios over step halvings >= p - 0.5 (coarser pairs are pre-asymptotic), using only resolutions with >= 8 steps and errors in [1e-11, 1e-2]*scale; fewer than 2 ratios => counted trivial, never failed",
+    "fixed-step order: the better of the two finest pairwise log2 error ratios over step halvings (or, when they are still rising and the finest is within 1 of p, their linear extrapolation to h->0) >= p - 0.5, using only resolutions with >= 8 steps and errors in [1e-11, 1e-2]*scale; fewer than 2 ratios => counted trivial, never failed",
     "adaptive accuracy (at tol and tol/100; when the error at tol is >= the tolerance itself it must also drop >= 1.5x at tol/100): error at every requested time <= 200*max(1, r_scipy)*(rtol*|y|+atol) (the RMS error norm is diluted ~3.6x by the 35 constant parameter components of the template) where r_scipy is SciPy's own error ratio for the same method family on the same instance, instances with ||J||*T <= 6",
     "reference solutions: SciPy DOP853 at rtol=atol=1e-13 on an independently written NumPy field",
 ]
@@ -257,6 +257,17 @@ def _ref(case, t_eval):
     return sol.y.T if sol.success else None
 
 
+def _observed_order(ratios, p):
+    """Observed order from successive log2 error ratios: the better of the two finest ratios and, when they are
+    still rising towards the asymptote (pre-asymptotic regime: the ratio error is ~ proportional to h), their
+    linear extrapolation to h -> 0, 2*r_last - r_prev -- used only if the finest ratio is already within 1 of p."""
+    r_last, r_prev = float(ratios[-1]), float(ratios[-2])
+    best = max(r_last, r_prev)
+    if r_last > r_prev and r_last >= p - 1.0:
+        best = max(best, 2 * r_last - r_prev)
+    return best
+
+
 def eval_ode(case, ctx):
     from hiten.algorithms.integrators.rk import AdaptiveRK, RungeKutta
     from scipy.integrate import solve_ivp
@@ -311,7 +322,7 @@ def eval_ode(case, ctx):
         ctx.case(nontrivial=nt, cls=["ode:fixed%d" % p, "ode:" + case["kind"], "ode:ratios=%d" % min(len(ratios), 3)],
                  sample={"case": case, "errors": good, "log2_ratios": ratios} if nt and ctx.evaluations % 9 == 0 else None)
         if len(ratios) >= 2:
-            med = float(max(ratios[-2:]))
+            med = _observed_order(ratios, p)
             if med < p - 0.5:
                 ctx.fail("observed-order-below-declared:fixed%d" % p, case,
                          "declared order %d, best of the two finest log2 error ratios %.2f from errors %s" % (p, med, ["%d:%.2e" % ne for ne in good]))
@@ -411,9 +422,9 @@ def eval_ham(case, ctx):
         ratios = [math.log2(good[i][1] / good[i + 1][1]) for i in range(len(good) - 1) if good[i + 1][0] == 2 * good[i][0]]
         nt = ("ham", repr(case)) if len(ratios) >= 2 else None
         ctx.case(nontrivial=nt, cls=["ham:fixed%d" % p, "ham:nonsep" if case["H"]["nonsep"] else "ham:sep"])
-        if len(ratios) >= 2 and float(max(ratios[-2:])) < p - 0.5:
+        if len(ratios) >= 2 and _observed_order(ratios, p) < p - 0.5:
             ctx.fail("observed-order-below-declared:hamiltonian-fixed%d" % p, case,
-                     "declared order %d, best of the two finest log2 ratios %.2f, errors %s" % (p, float(max(ratios[-2:])), ["%d:%.2e" % ne for ne in good]))
+                     "declared order %d, best of the two finest log2 ratios %.2f, errors %s" % (p, _observed_order(ratios, p), ["%d:%.2e" % ne for ne in good]))
     else:
         tol = case["tol"]; atol = case.get("atol", tol)
         tv = np.linspace(0.0, T, 7)
